@@ -180,6 +180,18 @@ func properties() []Property {
 			Assumptions: []string{"errorSort replaced by a pass-through stub (engine side)", "deleting the default of a leaf-list is documented by the library as unsupported and reported as an error: accepted as 'reported'"},
 		},
 		{
+			ID: "C09",
+			Harnesses: []Harness{
+				{Name: "H09a", Pkg: "yang", Fn: "H09a", Redirects: errSortStub, Reach: []string{"resolved", "rejected"}, MaxSteps: 400000000, TimeoutMs: 30000, MaxPaths: 400000,
+					Bound: "typedefs present or absent at 7 sites (module top, submodule top, container, grouping, rpc input, imported module top, imported module's submodule top), each named a or b (symbolic: shadowing and same-named typedefs elsewhere occur); one reference at 5 sites (module top, container, grouping used elsewhere, rpc input, submodule top) spelled unprefixed / own prefix / import prefix / unknown prefix with a symbolic name", Outside: "list, output and notification scopes; nested includes; typedef names equal at the top of a module and of its submodule (a schema error, assumed away)"},
+				{Name: "H09b", Pkg: "yang", Fn: "H09b", Redirects: errSortStub, Reach: []string{"resolved"}, MaxSteps: 400000000, TimeoutMs: 30000, MaxPaths: 400000,
+					Bound: "chain string <- t1 <- t2 <- t3 <- two leaves (and one leaf of t2), every level with units / default / pattern / length present or absent (2^16 combinations): units and default nearest-wins, patterns accumulated in chain order and separately per leaf, nearest length", Outside: "enum/bit/fraction-digits/path/union inheritance (H09c covers union members in chains); deeper chains"},
+				{Name: "H09c", Pkg: "yang", Fn: "H09c", Redirects: errSortStub, Reach: []string{"resolved", "rejected"}, MaxSteps: 400000000, TimeoutMs: 30000,
+					Bound: "three typedefs whose base is drawn from {a, b, c, string, unknown name, own-prefixed a, union with a typedef member}: every cycle, chain and unknown reference", Outside: "longer cycles"},
+			},
+			Assumptions: []string{"errorSort replaced by a pass-through stub (engine side)"},
+		},
+		{
 			ID: "C10",
 			Harnesses: []Harness{
 				{Name: "H10a-int", Pkg: "yang", Fn: "H10a", Quick: map[string]int{"k": 2, "p": 2, "mm": 1, "fdlo": 0, "fdhi": 0},
